@@ -324,6 +324,29 @@ class C18Hibernation(Monitor):
     def on_sprout_begin(self, tree):
         self.participants = {d.id: d for li, lvl in enumerate(tree.levels[:-1]) for d in lvl if d.is_active}
         self.existing = {d.id for d in self.all_demes(tree)}
+        self.round_generated = {}
+        self.round_removed_by = {}
+
+    def on_generator(self, g, out, tree):
+        self.round_generated = {d.id: len(c.individuals) for d, c in out.items()}
+
+    def on_filter(self, f, before, after, tree):
+        for d0, inds in before.items():
+            kept = next((c.individuals for d, c in after.items() if d is d0), [])
+            if len(kept) < len(inds):
+                self.round_removed_by.setdefault(d0.id, []).append(type(f).__name__)
+
+    def _why_asleep(self, tree):
+        """Mechanism by which the round left every active deme asleep (part of the finding's key)."""
+        sleepers = [d for lvl in tree.levels[:-1] for d in lvl if d.is_active and d._hibernating]
+        if not sleepers:
+            return "no sleeping non-leaf deme"
+        gen_ = getattr(self, "round_generated", {})
+        if all(gen_.get(d.id, 0) == 0 for d in sleepers):
+            return "no candidate was generated for the sleeping demes"
+        flt = sorted({f for d in sleepers for f in getattr(self, "round_removed_by", {}).get(d.id, [])})
+        self.last_rejecting_filters = flt
+        return "every generated candidate of the sleeping demes was rejected by the filter chain" if flt else "candidates were generated and not rejected, yet nothing was sprouted"
 
     def on_sprout_end(self, tree, seeds):
         hib = self._hib()
@@ -386,11 +409,11 @@ class C18Hibernation(Monitor):
                 requested = sum(d.n_evaluations - self.req_before.get(d.id, d.n_evaluations) for d in self.all_demes(tree))
                 if not self.entered:
                     key = (
-                        "zero-evaluation metaepoch while every active deme is hibernating"
+                        "zero-evaluation metaepoch while every active deme is hibernating: " + self._why_asleep(tree)
                         if self.all_asleep
                         else "zero-evaluation metaepoch: no active deme was run"
                     )
-                    self.v(key, active=self.active_at_begin, step=ctx.step, gsc=ctx.desc["gsc"]["k"], sprout=ctx.desc["sprout"]["k"])
+                    self.v(key, active=self.active_at_begin, step=ctx.step, gsc=ctx.desc["gsc"]["k"], sprout=ctx.desc["sprout"]["k"], filters_that_removed_candidates=getattr(self, "last_rejecting_filters", None))
                 elif requested > 0:
                     self.cov("zero_eval_step_due_to_cutoff_refusals")
                 else:
